@@ -15,6 +15,7 @@ collection / alignment get_translation incl. gapped codons, cogent3.app.translat
 
 import itertools
 import random
+import re
 
 from vmon.core import Result, exc_mechanism
 
@@ -431,7 +432,7 @@ def check_table(res, cid):
             sp = spell(all_codons, mt)
             st, got = attempt(lambda: str(mk_seq(sp, mt, impl).get_translation(gc=cid, include_stop=True, trim_stop=False)))
             ok = st == "ok" and got == table
-            if not ok and impl == "old" and mt == "rna" and st == "exc" and type(got).__name__ == "AlphabetError":
+            if not ok and impl == "old" and mt == "rna" and st == "exc" and old_rna_unresolved(got):
                 res.evals += 1
                 res.count("op:seq.get_translation/old")
                 res.witness(OLD_RNA_MECH, code=cid, seq="<all 64 codons, RNA>", error=repr(got)[:200], replay_case=replay)
@@ -446,6 +447,13 @@ EMPTY_MECH = "C12/has_terminal_stop/empty-sequence/raises-InvalidCodonError"
 ALN_TRIM_MECH = "C12/alignment.get_translation/trim_stop-false-ignored"
 RNA_TRIM_MECH = "C12/trim_stop_codons/rna/stop-pattern-spelled-as-dna"
 DOUBLE_TRIM_MECH = "C12/container.get_translation/consecutive-trailing-stops-all-trimmed"
+
+
+def old_rna_unresolved(exc_or_text):
+    """old Sequence.get_translation could not find an RNA-spelled codon in the (DNA-spelled) codon alphabet"""
+    t = exc_or_text if isinstance(exc_or_text, str) else f"{type(exc_or_text).__name__}: {exc_or_text}"
+    m = re.search(r"unresolvable codon '([^']*)'", t)
+    return bool(m) and "U" in m.group(1).upper()
 
 
 def empty_codon_error(exc_or_text):
@@ -732,7 +740,7 @@ def seq_special(impl, mt, s_frame):
         name = type(val).__name__
         if empty_codon_error(val):
             return EMPTY_MECH
-        if impl == "old" and mt == "rna" and name == "AlphabetError" and "U" in spell(s_frame, "rna"):
+        if impl == "old" and mt == "rna" and name == "AlphabetError" and old_rna_unresolved(val):
             return OLD_RNA_MECH
         return None
 
@@ -850,8 +858,12 @@ def check_container(res, cid, data, kind, mt):
             name = type(val).__name__ if k == "exc" else None
             if k == "exc" and empty_codon_error(val):
                 return EMPTY_MECH
-            if k == "exc" and impl == "old" and mt == "rna" and name == "AlphabetError":
+            if k == "exc" and impl == "old" and mt == "rna" and name == "AlphabetError" and old_rna_unresolved(val):
                 return OLD_RNA_MECH
+            if k == "exc" and aligned and mt == "rna" and name == "AlphabetError" and not pol[0] and pol[1]:
+                # model of "alignment-level trimming misses RNA-spelled stops": the missed stop is rejected by its row
+                if seq_level_model(table, rna_trim_model(table, data), (False, False, pol[2])) == "reject":
+                    return RNA_TRIM_MECH
             if aligned and not pol[0] and not pol[1]:
                 # model of "trim_stop=False is not handed to the rows": rows are translated under (excl, trim)
                 m = seq_level_model(table, data, (False, True, pol[2]))
@@ -1025,8 +1037,12 @@ def check_apps(res, cid, data, kind, mt):
                 res.evals += 1
                 if empty_codon_error(str(out.message)):
                     mech = EMPTY_MECH
-                elif mt == "rna" and name == "AlphabetError":
+                elif mt == "rna" and name == "AlphabetError" and old_rna_unresolved(str(out.message)):
                     mech = OLD_RNA_MECH
+                elif aligned and mt == "rna" and trim and name == "AlphabetError" and seq_level_model(table, rna_trim_model(table, data), (False, False, False)) == "reject":
+                    mech = RNA_TRIM_MECH
+                elif aligned and mt == "rna" and trim and name == "ValueError" and seq_level_model(table, rna_trim_model(table, data), pol) == "unequal":
+                    mech = RNA_TRIM_MECH
                 elif aligned and not trim and name in ("AlphabetError", "ValueError"):
                     mech = ALN_TRIM_MECH
                 else:
